@@ -19,7 +19,7 @@ THEOREMS = ['C01_order', 'C01_invalid', 'C01_payload', 'C01_unknown_event']
 
 
 def gen(rng, i, tier):
-    c = flat.gen_case(rng, malformed=(i % 7 == 6), p_build=0.3, p_self=0.15)
+    c = flat.gen_case(rng, malformed=(i % 7 == 6), p_build=0.3, p_self=0.15, p_multi=0.25)
     if i % 3 == 2:
         # the markup / diagram classes re-declare add_transition, add_states, remove_transition (class equivalence
         # proper is C09; here they carry the construction routes)
